@@ -16,6 +16,7 @@ import (
 	"github.com/idena-network/idena-go/blockchain/types"
 	"github.com/idena-network/idena-go/common/eventbus"
 	"github.com/idena-network/idena-go/common/hexutil"
+	"github.com/idena-network/idena-go/config"
 	"github.com/idena-network/idena-go/core/appstate"
 	"github.com/idena-network/idena-go/core/mempool"
 	"github.com/idena-network/idena-go/core/upgrade"
@@ -67,10 +68,15 @@ func freshDataDir() string {
 }
 
 // startKeeperNode (re)builds r's in-memory objects over r.DB with the tx keeper on dataDir.
-func startKeeperNode(r *sim.Replica, dataDir string) error {
+// limits, when not nil, replaces the default Mempool section (a restart keeps the node's configuration).
+func startKeeperNode(r *sim.Replica, dataDir string, limits *config.Mempool) error {
 	w := r.W
 	cfg := w.Config()
 	cfg.DataDir = dataDir
+	if limits != nil {
+		m := *limits
+		cfg.Mempool = &m
+	}
 	r.Cfg = cfg
 	bus := eventbus.New()
 	appState, err := appstate.NewAppState(r.DB, bus)
@@ -108,7 +114,7 @@ func startKeeperNode(r *sim.Replica, dataDir string) error {
 
 func newKeeperNode(w *sim.World, name string, key *ecdsa.PrivateKey, dataDir string) (*sim.Replica, error) {
 	r := &sim.Replica{W: w, Name: name, Key: key, Addr: crypto.PubkeyToAddress(key.PublicKey), DB: dbm.NewMemDB(), Ipfs: sim.NewIpfs(), Loc: time.UTC}
-	if err := startKeeperNode(r, dataDir); err != nil {
+	if err := startKeeperNode(r, dataDir, nil); err != nil {
 		return nil, err
 	}
 	w.Replicas = append(w.Replicas, r)
